@@ -246,7 +246,10 @@ class Scenario:
             self.release = aio.AEvent(self.loop, f"release{len(self.releases)}" if self.independent_conditions else "release")
             self.releases.append(self.release)
         self.eng.event("suspend-requested", fresh)
+        # ghost: what was REQUESTED (condition, pre-plan, post-plan), in order of request - the roles as the environment gave them
+        self.suspensions = getattr(self, "suspensions", [])
         if not self.suspend_plans:
+            self.suspensions.append({"cond": self.release, "pre": None, "post": None, "started": False})
             call_method(I, self.re, "request_suspend", I.getattr(self.release.facade, "wait"))
             return
         # the suspender's pre / post plans: arbitrary short plans of harmless messages
@@ -256,6 +259,7 @@ class Scenario:
         pre.canon_name, post.canon_name = "pre", "post"
         self.pre_plans.append(pre)
         self.post_plans.append(post)
+        self.suspensions.append({"cond": self.release, "pre": pre, "post": post, "started": False})
         call_method(I, self.re, "request_suspend", I.getattr(self.release.facade, "wait"), pre_plan=pre, post_plan=post, justification="beam dump")
 
     def complete(self, f, ok):
